@@ -103,7 +103,7 @@ func mergeKeys(inputChan <-chan keyBatchEvent, outputChan chan<- keyBatchEvent, 
 
 	states := make(map[string]stateMerge, settings.batchSize)
 	for batch := range inputChan {
-		var err error
+		err := batch.err // a failed listing must reach the consumer
 		filtered := make([]string, 0, len(batch.keys))
 		for _, key := range batch.keys {
 			apc, erp := model.GetArchivePathComponents(key)
